@@ -251,10 +251,14 @@ def gen_series(rng, out, n, big):
             limit = rng.choice([1, 2, 2, 3, 3, 4, 5, 6, 7, 8])
             tags = ['series', 'store', f'limit-{limit}', 'readers-' + readers]
             op = key_mode(rng, flt, 'store', tags)
+            if op == 'store' and rng.random() < 0.25:
+                op = 'stored'; tags.append('double-valued')
             out.append(Case(f'series {op} {limit} {flt} {readers} ' + ' ; '.join(ops), H, tags))
         else:
             tags = ['series', 'sdk', 'limit-default', 'readers-' + readers]
             op = key_mode(rng, flt, 'sdk', tags)
+            if op == 'sdk' and rng.random() < 0.25:
+                op = 'sdkd'; tags.append('double-valued')
             out.append(Case(f'series {op} {flt} {readers} ' + ' ; '.join(ops), H, tags))
     # many distinct sets against small limits, several cycles (recn)
     for _ in range(n // 10):
@@ -267,6 +271,21 @@ def gen_series(rng, out, n, big):
             ops.append(f'col {rng.randrange(len(readers))}')
         out.append(Case(f'series store {limit} * {readers} ' + ' ; '.join(ops), H,
                         ('series', 'store', 'many-sets', f'limit-{limit}', 'readers-' + readers)))
+    # observable counters, below the default limit (beyond it: CANDIDATE_FINDING_CASES)
+    for _ in range(n // 40):
+        readers = rng.choice(['D', 'C', 'DC', 'CC', 'CD', 'DD'])
+        ops = []
+        for _c in range(rng.randrange(1, 6)):
+            lo = rng.randrange(0, 60)
+            ops.append(f'recn {rng.choice(["6b", "6b", "61"])} {lo} {lo + rng.randrange(0, 60)} {rng.randrange(1, 5)}')
+            ops.append(f'col {rng.randrange(len(readers))}')
+        out.append(Case(f'series obs {readers} ' + ' ; '.join(ops), H, ('series', 'observable', 'below-default-limit', 'readers-' + readers)))
+    # the default limit exceeded through the provider (quick tier: a few; thorough: below)
+    for _ in range(2):
+        readers = rng.choice(['D', 'C', 'DC'])
+        cnt = rng.choice([1999, 2000, 2001, 2100])
+        out.append(Case(f'series {rng.choice(["sdk", "sdkd"])} * {readers} recn 6b 0 {cnt} 1 ; col 0 ; recn 6b {cnt // 2} {cnt + 150} 2 ; col {len(readers) - 1} ; col 0', H,
+                        ('series', 'sdk', 'default-limit-exceeded', 'readers-' + readers)))
     if big:
         for _ in range(12):
             readers = rng.choice(['D', 'C', 'DC', 'CC'])
@@ -284,7 +303,7 @@ def gen_series(rng, out, n, big):
 def gen_malformed(rng, out):
     for ln in ['attr eq * 61=x:1 -', 'attr eq * 61=i32:2147483648 -', 'attr eq * 6=i64:1 -', 'attr eq * - ', 'attr eq', 'attr eq * 61=cs:6100 -',
                'attr eq 6 - -', 'attr eq * 61=d:7ff0000000000000 -', 'attr eq * 61=u64:-1 -', 'series store x * D col 0', 'series store 3 * - col 0',
-               'series store 3 * D col 1', 'series store 3 * D rec - -5 ; col 0', 'series sdk * D', 'series sdk * X col 0', 'series nope', 'series']:
+               'series store 3 * D col 1', 'series store 3 * D rec - -5 ; col 0', 'series obs D rec 61=i64:1 1 ; col 0', 'series obs X col 0', 'series stored x * D col 0', 'series sdk * D', 'series sdk * X col 0', 'series nope', 'series']:
         out.append(Case(ln, H, ('malformed',)))
 
 
@@ -316,9 +335,25 @@ def corpus():
     c('series store 3 * C recn 6b 0 9 1 ; col 0 ; recn 6b 9 18 1 ; col 0', 'D10c-overflow-total')
     c('series store 2 * DC recn 6b 0 5 1 ; col 1 ; recn 6b 5 9 1 ; col 0 ; col 1', 'D10c-overflow-total')
     c('series sdk * C recn 6b 0 1500 1 ; col 0 ; recn 6b 1500 3000 1 ; col 0 ; recn 6b 3000 4500 1 ; col 0', 'D10c-overflow-total-default-limit')
+    # the double-valued twins of the two paths (RecordDouble / DoubleCounter::Add): same keys, same tables
+    c('series stored 3 61 DC rec 61=i64:1,62=i64:9 5 ; rec 62=i64:8,61=i64:1 6 ; rec ~ 1 ; col 0 ; recn 61 0 9 1 ; col 1 ; col 0', 'double-valued')
+    c('series sdkd 6b C rec ~ 5 ; rec 61=i64:1 6 ; rec ~c 1 ; rec 6b=d:0000000000000000 2 ; rec 6b=d:8000000000000000 3 ; col 0 ; recn 6b 0 2100 1 ; col 0', 'double-valued')
+    # an observable counter below the default limit: the same series as the synchronous counter
+    c('series obs DC recn 6b 0 30 2 ; col 0 ; recn 6b 10 40 1 ; col 1 ; col 0 ; col 1', 'observable-below-limit')
     c('attr eq * 62=i64:1,61=s:6869 61=cs:6869,62=i64:2,62=i64:1', 'order-and-duplicates')
     c(f'attr eq * {"ff"}=i64:1,{"7f"}=i64:2 {"7f"}=i64:2,{"ff"}=i64:1', 'bytewise-order')
     return out
+
+
+# CANDIDATE FINDING (not in corpus() / generate(): the unchanged tree fails them; see coverage/AUDIT_B.md "candidate findings").
+# An observable counter that reports more distinct attribute sets than the default cardinality limit: AsyncMetricStorage::Record
+# goes through AttributesHashMap::Set, which at the limit REPLACES the overflow series by the latest excess measurement, so the
+# total over the reported series is no longer everything reported by the callback.
+CANDIDATE_FINDING_CASES = [
+    'series obs C recn 6b 0 2001 1 ; col 0',
+    'series obs D recn 6b 0 2100 1 ; col 0',
+    'series obs DC recn 6b 0 2500 1 ; col 0 ; recn 6b 0 2500 1 ; col 1 ; col 0',
+]
 
 
 def generate(rng, tier):
@@ -367,8 +402,11 @@ def expand_ops(flt, toks):
 
 
 def check_series(t, out):
-    if t[1] in ('store', 'storeg'):
+    if t[1] in ('store', 'storeg', 'stored'):
         limit, flt, readers, rest = int(t[2]), parse_filter(t[3]), t[4], t[5:]
+    elif t[1] == 'obs':
+        # an observable counter reporting running totals: per reader what a synchronous counter with the same additions gives
+        limit, flt, readers, rest = 2000, parse_filter('*'), t[2], t[3:]
     else:
         limit, flt, readers, rest = 2000, parse_filter(t[2]), t[3], t[4:]
     cap = max(limit, 1)
